@@ -5,15 +5,42 @@ was rendered from."""
 from lib import vlib, render
 
 
-def items(ctx, quick, families=None):
-    mc = ctx.tlc("MC_Scale", "MC_Scale_quick.cfg" if quick else "MC_Scale_thorough.cfg", timeout=3000, xss="1g")
+def _export(ctx, cfg):
+    """MC_Scale depends on the specification only (not on /repo): its export is cached under
+    /verif/.cache, keyed by the hash of the spec files involved."""
+    import hashlib, json, os
+    h = hashlib.sha1()
+    for f in ("MC_Scale.tla", cfg, "XjsPrograms.tla", "XjsGrammar.tla", "XjsParser.tla"):
+        h.update(open(os.path.join(vlib.SPEC, f), "rb").read())
+    path = os.path.join(vlib.VERIF, ".cache", "scale-%s.json" % h.hexdigest()[:16])
+    if os.path.exists(path):
+        try:
+            return json.load(open(path))
+        except Exception:
+            pass
+    mc = ctx.tlc("MC_Scale", cfg, timeout=3000, xss="1g")
     if not mc.ok:
         raise vlib.Infra("MC_Scale reports an error: %s" % mc.error)
     if mc.tuples("MODELFAIL"):
-        ctx.notes.append("MC_Scale: the parser model disagrees with the rendered tree on %s" % mc.tuples("MODELFAIL")[:3])
+        raise vlib.Infra("MC_Scale: the parser model disagrees with the rendered tree on %s" % mc.tuples("MODELFAIL")[:3])
+    exported = mc.json_lines()
+    os.makedirs(os.path.dirname(path), exist_ok=True)
+    tmp = path + ".%d" % os.getpid()
+    json.dump(exported, open(tmp, "w"))
+    os.replace(tmp, path)
+    return exported
+
+
+def items(ctx, quick, families=None, malformed=False, max_nest=None):
+    exported = _export(ctx, "MC_Scale_quick.cfg" if quick else "MC_Scale_thorough.cfg")
     out = []
-    for e in mc.json_lines():
+    for e in exported:
         if families and e["fam"] not in families:
+            continue
+        if max_nest is not None and (e["fam"].startswith("nest_") or e["fam"] in ("chain_plus", "chain_mem", "chain_call")) and e["n"] > max_nest:
+            continue
+        bad = e["want"].get("k") == "nil"
+        if bad != malformed and not (malformed is None):
             continue
         text = render.toks_to_text(e["toks"], ctx.rng, "plain")
         out.append(dict(id="scale:%s:%d:%s" % (e["fam"], e["n"], "nl" if "\n" in text else "sp"), fam=e["fam"], n=e["n"], text=text,
